@@ -68,7 +68,28 @@ def verify_functions(functions, contract_modules, timeout_ms, edits=None, active
         return pool.map(_worker, jobs, chunksize=1)
 
 
-def native_replay(function, obligation, rec, contract_modules, repo):
+def native_replay(function, obligation, rec, contract_modules, repo, edits=None):
+    tmp = None
+    if edits:
+        # replay against a scratch copy of the package with the seeded edit applied
+        import shutil
+        import tempfile
+        tmp = tempfile.mkdtemp(prefix="verif-breaker-")
+        shutil.copytree(os.path.join(repo, "octoprint_excluderegion"), os.path.join(tmp, "octoprint_excluderegion"))
+        for (mod, old, new) in edits:
+            pth = os.path.join(tmp, "octoprint_excluderegion", mod + ".py")
+            txt = open(pth, "rb").read().decode("utf-8").replace("\r\n", "\n")
+            open(pth, "w").write(txt.replace(old, new))
+        repo = tmp
+    try:
+        return _native_replay(function, obligation, rec, contract_modules, repo)
+    finally:
+        if tmp:
+            import shutil
+            shutil.rmtree(tmp, ignore_errors=True)
+
+
+def _native_replay(function, obligation, rec, contract_modules, repo):
     req = {"repo": repo, "verif": VERIF, "function": function, "obligation": obligation,
            "model": rec.get("model") or {}, "choices": rec.get("choices") or [],
            "contract_modules": contract_modules}
@@ -116,6 +137,7 @@ def run_property(prop, tier, seed):
     n_ob = n_dis = 0
     undecided = []
     violations = []
+    candidates = []
     known_hit = []
     crashes = []
     samples = []
@@ -161,6 +183,8 @@ def run_property(prop, tier, seed):
                     samples.append({"obligation": ob["name"], "kind": ob["kind"], "backend": ob["backend"], "secs": ob["secs"], "path": ob.get("path")})
             elif ob["status"] == "refuted":
                 violations.append((ob, r["function"]))
+            elif ob["status"] == "candidate":
+                candidates.append((ob, r["function"]))
             else:
                 undecided.append("%s: solver unknown (%s)" % (ob["name"], ob.get("reason")))
         if cnt == 0:
@@ -168,6 +192,15 @@ def run_property(prop, tier, seed):
         fn_report.append({"function": r["function"], "file": r.get("file"), "lines": r.get("lines"),
                           "paths": r.get("paths"), "obligations": cnt, "solver_s": r.get("solver_s"),
                           "wall_s": r.get("wall_s"), "call_edges": r.get("edges")})
+    # ---- candidates (solver undecided, weakened query sat): a violation only if the real code reproduces it
+    for ob, fn in candidates:
+        nat = native_replay(fn, ob["name"], ob, prop.CONTRACT_MODULES, repo)
+        if nat.get("reproduced") is True and nat.get("pre_holds_natively"):
+            ob["native"] = nat
+            violations.append((ob, fn))
+        else:
+            undecided.append("%s: solver unknown (%s); weakened-query candidate did not reproduce on the real code"
+                             % (ob["name"], ob.get("reason")))
     # ---- bounded sub-checks (never counted as discharged obligations)
     bounded = []
     for bc in getattr(prop, "BOUNDED", []):
@@ -189,16 +222,25 @@ def run_property(prop, tier, seed):
     if tier == "quick":
         breakers = breakers[:int(os.environ.get("VERIF_QUICK_BREAKERS", "2"))]
     for bk in breakers:
+        tb0 = time.time()
         fnlist = bk.get("functions", prop.FUNCTIONS)
         rs = verify_functions(fnlist, prop.CONTRACT_MODULES, timeout_ms, edits=[(bk["module"], bk["old"], bk["new"])],
                               active_cases=active_cases)
         hit = [ob["name"] for r in rs for ob in r.get("obligations", []) if ob["status"] == "refuted"
                and ob.get("expected") != "sat" and relevant(ob, tags)]
+        if not hit:
+            for r in rs:
+                for ob in r.get("obligations", []):
+                    if ob["status"] == "candidate" and relevant(ob, tags) and not hit:
+                        nat = native_replay(r["function"], ob["name"], ob, prop.CONTRACT_MODULES, repo, edits=[(bk["module"], bk["old"], bk["new"])])
+                        if nat.get("reproduced") is True and nat.get("pre_holds_natively"):
+                            hit.append(ob["name"] + " (candidate reproduced natively)")
         bad = [r for r in rs if r["status"] != "ok"]
         if bad and "does not apply exactly once" in (bad[0].get("error") or ""):
             selfval.append({"breaker": bk["desc"], "skipped": "source text of the seeded edit is not present in this tree"})
             continue
-        selfval.append({"breaker": bk["desc"], "detected_by": sorted(set(hit))[:5], "detected": bool(hit)})
+        selfval.append({"breaker": bk["desc"], "detected_by": sorted(set(hit))[:5], "detected": bool(hit),
+                        "wall_s": round(time.time() - tb0, 2)})
         if not hit:
             crashes.append("self-validation: seeded breaker not detected: %s%s" % (
                 bk["desc"], " (%s)" % bad[0].get("error") if bad else ""))
@@ -231,7 +273,7 @@ def run_property(prop, tier, seed):
             rep["bounded_witness"] = ob.get("bounded")
             rep["native"] = {"reproduced": True, "detail": "witness found by running the real code"}
         else:
-            nat = native_replay(fn, ob["name"], ob, prop.CONTRACT_MODULES, repo)
+            nat = ob.get("native") or native_replay(fn, ob["name"], ob, prop.CONTRACT_MODULES, repo)
             rep["native"] = nat
             if nat.get("reproduced") is not True:
                 suffix = " no-failing-input-found"
